@@ -15,6 +15,67 @@ import (
 // now-2*age for tombstones). For every age - also the largest ones, where "never" is meant - it may
 // remove only messages not newer than those cut-offs. With message times around now and ages of a
 // century and more nothing qualifies: the log must read the same before and after. Part of C16.
+// runCompactManyKeys: the compaction scans keep per-key state; with more distinct keys than any
+// internal bound might allow (70 000) the rules are the same: the latest value of every key survives
+// CompactUpdates and CompactDeletes, a tombstone that is not the oldest message of its key stays.
+func runCompactManyKeys(cfg *RunCfg, rep *Reporter, cov *Cov) {
+	dir := filepath.Join(cfg.Scratch, "cmany")
+	defer os.RemoveAll(dir)
+	l, err := kOpen(dir, OpenOpts{Rollover: 1 << 20, Create: true, KeyIndex: true})
+	if err != nil {
+		return
+	}
+	defer kClose(l)
+	t0 := time.Now().UTC().Add(-48 * time.Hour)
+	var batch []klevdb.Message
+	n := 70000
+	for i := 0; i < n; i++ {
+		batch = append(batch, klevdb.Message{Key: []byte(fmt.Sprintf("key-%06d", i)), Value: []byte("v"), Time: t0.Add(time.Duration(i) * time.Millisecond)})
+		if len(batch) == 5000 {
+			kPublish(l, batch)
+			batch = nil
+		}
+	}
+	// behind them: a key with a value and then its tombstone, and a key updated once
+	tail := []klevdb.Message{
+		{Key: []byte("victim"), Value: []byte("v1"), Time: t0.Add(80 * time.Second)},
+		{Key: []byte("upd"), Value: []byte("old"), Time: t0.Add(81 * time.Second)},
+		{Key: []byte("victim"), Time: t0.Add(82 * time.Second)},
+		{Key: []byte("upd"), Value: []byte("new"), Time: t0.Add(83 * time.Second)},
+	}
+	kPublish(l, tail)
+	cut := time.Now().UTC().Add(-time.Hour)
+	ctx := context.Background()
+	for _, which := range []string{"deletes", "updates", "deletes"} {
+		var del map[int64]struct{}
+		cerr := guard(func() error {
+			var e error
+			if which == "deletes" {
+				del, _, e = klevdb.CompactDeletesMultiOffsets(ctx, l, cut, noBackoff)
+			} else {
+				del, _, e = klevdb.CompactUpdatesMultiOffsets(ctx, l, cut, noBackoff)
+			}
+			return e
+		})
+		cov.Add("evaluations", 1)
+		cov.Distinct("c16", "compact-many-keys|"+which)
+		if cerr != nil {
+			rep.Report(Violation{Property: "C16", Sig: "histmon|compact-many-keys:error:" + errClass(cerr), What: fmt.Sprintf("Compact%s over %d keys failed: %s", which, n, errText(cerr)), Replay: map[string]any{"keys": n}})
+			return
+		}
+		v, verr := kGetByKey(l, []byte("victim"))
+		u, uerr := kGetByKey(l, []byte("upd"))
+		switch {
+		case (verr != nil && errClass(verr) != "ErrNotFound") || (verr == nil && v.Value != nil):
+			rep.Report(Violation{Property: "C16", Sig: "histmon|compact-many-keys:latest-changed", What: fmt.Sprintf("after Compact%s over %d distinct keys the last message of key 'victim' (a tombstone behind a value) is %q err=%s: the key is no longer absent (removed offsets: %d)", which, n, v.Value, errText(verr), len(del)), Replay: map[string]any{"keys": n, "step": which}})
+			return
+		case uerr != nil || string(u.Value) != "new":
+			rep.Report(Violation{Property: "C16", Sig: "histmon|compact-many-keys:latest-changed", What: fmt.Sprintf("after Compact%s over %d distinct keys the latest value of key 'upd' is %q err=%s, want \"new\"", which, n, u.Value, errText(uerr)), Replay: map[string]any{"keys": n, "step": which}})
+			return
+		}
+	}
+}
+
 func runCompactAges(cfg *RunCfg, rep *Reporter, cov *Cov) {
 	ages := []time.Duration{time.Duration(math.MaxInt64), time.Duration(math.MaxInt64 / 2), time.Duration(math.MaxInt64/2 + 1), 200 * 365 * 24 * time.Hour, 100 * 365 * 24 * time.Hour, 24 * time.Hour}
 	for k, age := range ages {
